@@ -139,6 +139,13 @@ def _eval_crash(ctx, case):
     nrec = sum(1 for o in ops if o[0] == "w")
     path = os.path.join(ctx.scratch, f"c14-crash-{ctx.evaluations}.gro")
     ppath = os.path.join(ctx.scratch, "c14-crash-prefix.gro")
+    if valid and ops and ops[-1][0] == "x":
+        # the output path already holds the COMPLETE result of an earlier, identical run (a job that is re-run
+        # over its own output): an interrupted rewrite must still leave something the reader rejects — opening
+        # for writing empties the file, nothing of the old run may survive behind the new prefix
+        # (seed C14-8: O_TRUNC masked on open, truncation deferred to close)
+        G.run_session(path, ops)
+        ctx.count("crash-over-a-previous-complete-file")
     errs, final, snaps = G.run_session(path, ops, snap=True)
     os.unlink(path)
     ctx.count("crash-session-valid" if valid else "crash-session-outside-quantifier")
